@@ -226,10 +226,16 @@ Fixpoint keeps_up (l : list (move * outcome)) : bool :=
   | (MSleep _, _) :: _ => false
   | _ => true
   end.
+(* "Emit calls its function at most once per frequency tick": the virtual times of the calls are at least one
+   period apart, the first one not before one period *)
+Fixpoint paced (fr prev : N) (l : list N) : bool :=
+  match l with [] => true | t :: r => N.leb (prev + fr) t && paced fr t r end.
+Definition c11_call_pace : bool :=
+  match emit_params with Some (fr, _, _, _) => paced fr 0 (ctimes c) | None => true end.
 Definition c11_ok : bool :=
   negb (crashed c) &&
   forallb prefix_ok (seq 0 nobs) &&
-  c11_timing &&
+  c11_timing && c11_call_pace &&
   (if N.eqb (sched c) 1 then keeps_up ms else true) &&
   (if cancelled_run && (outputs_closed (before_end ms) || N.eqb (sched c) 3) then Nat.eqb live_at_end 0 else true) &&
   (if cancelled_run then outputs_closed ms else true).
